@@ -29,6 +29,14 @@ def run(tier='quick', seed=0, only=None, verbose=False):
     if only:
         progs = [p for p in progs if only in p[0]]
     jobs = []
+    # projections inside one vectorized group: default branch selection and the index branch forced by configuration
+    for key, spec in families.fam_projections(seed, n=7 if tier == 'quick' else 42):
+        if only and only not in key:
+            continue
+        for ms in (None, 1.0):
+            jobs.append(dict(key=f"{key}|vec=True|matrix_sparseness={ms}", spec=spec, vectorize=True, backend='default',
+                             compile_kw={} if ms is None else dict(matrix_sparseness=ms), cvc5=(tier == 'thorough')))
+        jobs.append(dict(key=f"{key}|vec=False", spec=spec, vectorize=False, backend='default'))
     for key, spec in progs:
         for vec in (True, False):
             jobs.append(dict(key=f"{key}|vec={vec}", spec=spec, vectorize=vec, backend='default',
